@@ -167,6 +167,25 @@ fn pending_is_last(_f: &crate::driver::Frame, _d: &Driver) -> bool {
     true
 }
 
+fn exec_c14(sc: &Scenario, keep_log: bool) -> Outcome {
+    let (viols, mut out) = run_c14(sc, keep_log);
+    out.count("ring_H_runs", 1);
+    match std::env::var("VERIF_CLAIM_SIG") {
+        Ok(sig) => out.absorb(viols, &|v| v.signature() == sig),
+        Err(_) => out.absorb(viols, &|v| v.prop == "C14"),
+    }
+    out
+}
+
+fn exec_c15(sc: &Scenario, keep_log: bool) -> Outcome {
+    let (viols, mut out) = run_c15(sc, keep_log);
+    match std::env::var("VERIF_CLAIM_SIG") {
+        Ok(sig) => out.absorb(viols, &|v| v.signature() == sig),
+        Err(_) => out.absorb(viols, &|v| v.prop == "C15"),
+    }
+    out
+}
+
 impl Check for C14 {
     fn id(&self) -> &'static str {
         "C14"
@@ -189,6 +208,13 @@ impl Check for C14 {
             data: json!({"scenario": sc.to_json()}),
         }
     }
+    fn run_fast(&self, run_seed: u64, index: u64, tier: Tier) -> Option<Outcome> {
+        if index % 5 == 4 {
+            return None;
+        }
+        let sc = gen_c14(run_seed, tier);
+        Some(exec_c14(&sc, false))
+    }
     fn execute(&self, case: &Case) -> Outcome {
         if case.kind == "T" {
             let t = crate::checks::tchecks::TCheck { kind: crate::checks::tchecks::TKind::C14 };
@@ -197,13 +223,7 @@ impl Check for C14 {
             return out;
         }
         let sc = scenario_of(case);
-        let (viols, mut out) = run_c14(&sc, case.data.get("log").is_some());
-        out.count("ring_H_runs", 1);
-        match std::env::var("VERIF_CLAIM_SIG") {
-            Ok(sig) => out.absorb(viols, &|v| v.signature() == sig),
-            Err(_) => out.absorb(viols, &|v| v.prop == "C14"),
-        }
-        out
+        exec_c14(&sc, case.data.get("log").is_some())
     }
     fn shrink(&self, case: &Case) -> Vec<Case> {
         if case.kind == "T" {
@@ -435,14 +455,13 @@ impl Check for C15 {
             data: json!({"scenario": sc.to_json()}),
         }
     }
+    fn run_fast(&self, run_seed: u64, _index: u64, tier: Tier) -> Option<Outcome> {
+        let sc = gen_c15(run_seed, tier);
+        Some(exec_c15(&sc, false))
+    }
     fn execute(&self, case: &Case) -> Outcome {
         let sc = scenario_of(case);
-        let (viols, mut out) = run_c15(&sc, case.data.get("log").is_some());
-        match std::env::var("VERIF_CLAIM_SIG") {
-            Ok(sig) => out.absorb(viols, &|v| v.signature() == sig),
-            Err(_) => out.absorb(viols, &|v| v.prop == "C15"),
-        }
-        out
+        exec_c15(&sc, case.data.get("log").is_some())
     }
     fn rule(&self) -> String {
         "seeded long workloads (30..10000 commands, every command kind) over a live set of 2-5 small items under random eviction with a limit 20-1000x the largest possible live set; behavioural oracle: no key the reference model says is live ever misses; accounting oracle (hook H4 accessor): after every command accounted usage minus the sum of Record::len() must not change, and every change is attributed to (command kind, outcome, cause). non-trivial = a command's outcome depended on earlier state; distinct = distinct event-log fingerprints".into()
